@@ -234,6 +234,74 @@ func (e *taintEngine) hasEffect(fn *ssa.Function, depth int) bool {
 	return eff
 }
 
+// paramOnlyEffects: the function's only side effects are writes into maps / through pointers it receives as parameters;
+// the indices of those parameters.
+func (e *taintEngine) paramOnlyEffects(fn *ssa.Function) ([]int, bool) {
+	if !e.c.isRepoFunc(fn) || len(fn.Blocks) == 0 {
+		return nil, false
+	}
+	idx := map[int]bool{}
+	only := true
+	paramIndex := func(v ssa.Value) int {
+		for i, p := range fn.Params {
+			if ssa.Value(p) == v {
+				return i
+			}
+		}
+		return -1
+	}
+	allInstrs(fn, func(in ssa.Instruction) {
+		switch x := in.(type) {
+		case *ssa.Store:
+			r := addrRoot(x.Addr)
+			if a, ok := r.(*ssa.Alloc); ok && a.Parent() == fn {
+				return
+			}
+			if i := paramIndex(r); i >= 0 {
+				idx[i] = true
+				return
+			}
+			only = false
+		case *ssa.MapUpdate:
+			r := addrRoot(x.Map)
+			if mm, ok := r.(*ssa.MakeMap); ok && mm.Parent() == fn {
+				return
+			}
+			if i := paramIndex(r); i >= 0 {
+				idx[i] = true
+				return
+			}
+			only = false
+		case *ssa.Send, *ssa.Go:
+			only = false
+		case ssa.CallInstruction:
+			cc := x.Common()
+			if _, isB := cc.Value.(*ssa.Builtin); isB {
+				return
+			}
+			if callee := staticCallee(cc); callee != nil {
+				if e.hasEffect(unbound(callee), 1) {
+					only = false
+				}
+				return
+			}
+			if cc.IsInvoke() && (typeName(cc.Value.Type()) == "error" || strings.HasSuffix(cc.Method.Name(), "String")) {
+				return
+			}
+			if diagnosticCallee(calleeName(cc)) {
+				return
+			}
+			only = false
+		}
+	})
+	var out []int
+	for i := range idx {
+		out = append(out, i)
+	}
+	sort.Ints(out)
+	return out, only
+}
+
 // mapLoop describes one `for ... range m` over a map.
 type mapLoop struct {
 	rng    *ssa.Range
@@ -386,7 +454,7 @@ func (e *taintEngine) analyze(fn *ssa.Function) {
 							continue
 						}
 					}
-					e.loopEffect(fn, x, why)
+					e.loopEffect(fn, x, why, l.definedIn)
 				}
 			}
 		}
@@ -408,7 +476,7 @@ func (e *taintEngine) analyze(fn *ssa.Function) {
 				}
 				e.setCell(root, why+": the loop body stores a per-iteration value into an outer variable")
 			case ssa.CallInstruction:
-				e.loopEffect(fn, x, why)
+				e.loopEffect(fn, x, why, nil)
 			}
 		})
 	}
@@ -649,7 +717,7 @@ func (e *taintEngine) analyze(fn *ssa.Function) {
 }
 
 // loopEffect judges a call made once per entry of an order-carrying loop.
-func (e *taintEngine) loopEffect(fn *ssa.Function, x ssa.CallInstruction, why string) {
+func (e *taintEngine) loopEffect(fn *ssa.Function, x ssa.CallInstruction, why string, fresh func(ssa.Value) bool) {
 	c := e.c
 	cc := x.Common()
 	cn := calleeName(cc)
@@ -686,6 +754,19 @@ func (e *taintEngine) loopEffect(fn *ssa.Function, x ssa.CallInstruction, why st
 		if e.hasEffect(g, 0) {
 			if _, reviewed := reviewedOrderIndependent[name]; reviewed {
 				continue
+			}
+			// a helper that only writes into what it is handed (`seen.add(name)`), handed something made in this very
+			// iteration: nothing outlives the iteration, so the order of iterations does not show
+			if ps, only := e.paramOnlyEffects(g); only && fresh != nil && staticCallee(cc) != nil && !strings.HasSuffix(staticCallee(cc).Name(), "$bound") {
+				confined := true
+				for _, p := range ps {
+					if p >= len(cc.Args) || !fresh(addrRoot(cc.Args[p])) {
+						confined = false
+					}
+				}
+				if confined {
+					continue
+				}
 			}
 			e.find(name+"|effect|"+fname(g), c.pos(x.Pos()), name, fmt.Sprintf("%s has side effects and is called once per entry of a Go map: the effects happen in a different order from run to run", fname(g)), why)
 		}
@@ -834,6 +915,28 @@ func ruleMapOrder(c *Ctx) {
 	}
 	sort.Strings(tainted)
 	c.ok("summary", "", "", fmt.Sprintf("%d functions analysed, %d map-order sources, %d sink sites checked, %d functions return map-ordered data (none reaches a data sink unsorted): %s", len(fns), len(e.sources), e.sinks, len(tainted), strings.Join(tainted, " ; ")))
+	// a sort only undoes map order when its comparator tells all elements apart: elements that compare equal keep
+	// whatever relative order the map handed them in (the library sorts used here are not stable)
+	for _, fn := range fns {
+		for _, ci := range callsIn(fn) {
+			cn := calleeName(ci.Common())
+			if !(resultCleanCalls[cn] || inPlaceSorts[cn]) || !strings.Contains(cn, "Func") && cn != "sort.Slice" && cn != "sort.SliceStable" {
+				continue
+			}
+			args := ci.Common().Args
+			cmpf := unbound(funcOfValue(args[len(args)-1]))
+			if cmpf == nil || !c.isRepoFunc(cmpf) || len(cmpf.Params) != 2 {
+				continue
+			}
+			if cn == "sort.Slice" || cn == "sort.SliceStable" {
+				continue // index-based less: the elements are not parameters; left to the taint analysis
+			}
+			c.site(1)
+			key := c.ownerName(fn) + "|total-order|" + cn
+			problem := c.comparatorTotal(cmpf)
+			c.check(problem == "", key, c.pos(ci.Pos()), fname(fn), "the comparator tells any two elements apart", fmt.Sprintf("%s: the comparator handed to %s %s: elements that compare equal stay in the (map) order they arrived in, so the sorted result still differs from run to run", fname(fn), cn, problem))
+		}
+	}
 	// colliding writes: while ranging over a map, writing into another map under a key that is not the range key can hit
 	// the same key twice, and then the last writer (i.e. the iteration order) decides what the table holds
 	for _, fn := range fns {
@@ -1163,8 +1266,129 @@ func ruleIOLayer(c *Ctx) {
 		}
 		c.site(1)
 		c.check(ncalls >= 2 && sameCb, "cmd.readFileOrStdin|one-callback", c.pos(fn.Pos()), fname(fn), "stdin and FILE branches call the same callback", "the stdin and FILE branches of readFileOrStdin no longer feed the same callback")
+		// ... and hand it the bytes the same way: whatever wraps the reader on one branch (a decoder, a filter) wraps it on the other
+		chain := func(v ssa.Value) (string, bool) {
+			var names []string
+			for i := 0; i < 8; i++ {
+				switch x := v.(type) {
+				case *ssa.MakeInterface:
+					v = x.X
+					continue
+				case *ssa.ChangeInterface:
+					v = x.X
+					continue
+				case *ssa.Extract:
+					if call, ok := x.Tuple.(*ssa.Call); ok && calleeName(&call.Call) == "os.Open" {
+						return strings.Join(names, " <- "), true
+					}
+					v = x.Tuple
+					continue
+				case *ssa.UnOp:
+					if g, ok := x.X.(*ssa.Global); ok && x.Op == token.MUL && g.Pkg != nil && g.Pkg.Pkg.Path() == "os" && g.Name() == "Stdin" {
+						return strings.Join(names, " <- "), true
+					}
+				case *ssa.Call:
+					if len(x.Call.Args) > 0 {
+						names = append(names, calleeName(&x.Call))
+						v = x.Call.Args[0]
+						continue
+					}
+				}
+				break
+			}
+			return strings.Join(names, " <- "), false
+		}
+		var chains []string
+		resolved := true
+		for _, ci := range callsIn(fn) {
+			if p, ok := ci.Common().Value.(*ssa.Parameter); ok && p == fn.Params[1] && len(ci.Common().Args) == 1 {
+				ch, ok := chain(ci.Common().Args[0])
+				resolved = resolved && ok
+				chains = append(chains, ch)
+			}
+		}
+		c.site(1)
+		same := resolved && len(chains) >= 2
+		for _, ch := range chains {
+			if ch != chains[0] {
+				same = false
+			}
+		}
+		c.check(same, "cmd.readFileOrStdin|same-treatment", c.pos(fn.Pos()), fname(fn), "stdin and FILE reach the callback through the same wrappers (none)", fmt.Sprintf("readFileOrStdin hands the callback its input through different wrappers on different branches (%q): the same bytes are read differently depending on whether they come from stdin, `-` or a FILE", chains))
 	} else {
 		c.missing("cmd.readFileOrStdin")
+	}
+	// a buffered writer over an output is flushed while that output is still open: a Flush exists, and when both it and the
+	// Close are deferred the Flush is deferred later (deferred calls run last-in first-out)
+	for _, fn := range c.srcFuncs() {
+		for _, ci := range callsTo(fn, "bufio.NewWriter") {
+			nw, ok := ci.(*ssa.Call)
+			if !ok {
+				continue
+			}
+			c.site(1)
+			key := c.ownerName(fn) + "|buffered-output"
+			under := nw.Call.Args[0]
+			for {
+				if mi, ok := under.(*ssa.MakeInterface); ok {
+					under = mi.X
+					continue
+				}
+				if ch, ok := under.(*ssa.ChangeInterface); ok {
+					under = ch.X
+					continue
+				}
+				break
+			}
+			var flush, closeI ssa.Instruction
+			flushDeferred, closeDeferred := false, false
+			// the writer itself, or loads of the cell it is kept in (a range-over-func body captures it)
+			holders := []ssa.Value{nw}
+			for _, r := range *nw.Referrers() {
+				if st, ok := r.(*ssa.Store); ok && st.Val == ssa.Value(nw) {
+					if al, ok := st.Addr.(*ssa.Alloc); ok {
+						for _, r2 := range *al.Referrers() {
+							if ld, ok := r2.(*ssa.UnOp); ok && ld.Op == token.MUL {
+								holders = append(holders, ld)
+							}
+						}
+					}
+				}
+			}
+			for _, h := range holders {
+				for _, r := range *h.Referrers() {
+					if x, ok := r.(ssa.CallInstruction); ok && calleeName(x.Common()) == "bufio.Writer.Flush" {
+						flush = x
+						_, flushDeferred = x.(*ssa.Defer)
+					}
+				}
+			}
+			allInstrs(fn, func(in ssa.Instruction) {
+				x, ok := in.(ssa.CallInstruction)
+				if !ok {
+					return
+				}
+				cc := x.Common()
+				isClose := (cc.IsInvoke() && cc.Method.Name() == "Close" && cc.Value == under) || (!cc.IsInvoke() && strings.HasSuffix(calleeName(cc), ".Close") && len(cc.Args) > 0 && cc.Args[0] == under)
+				if isClose {
+					closeI = x
+					_, closeDeferred = x.(*ssa.Defer)
+				}
+			})
+			problem := ""
+			switch {
+			case flush == nil:
+				problem = "is never flushed: what is still in the buffer when the command ends is lost"
+			case closeI == nil:
+			case flushDeferred && closeDeferred && !dominatesInstr(closeI, flush):
+				problem = "has its Flush deferred before the Close of what it writes to: deferred calls run in reverse, so the output is closed first and the buffered tail is lost (the error of the late Flush is dropped)"
+			case flushDeferred && !closeDeferred:
+				problem = "is flushed by a deferred call but the output underneath is closed before the function returns: the buffered tail is lost"
+			case !flushDeferred && !closeDeferred && !dominatesInstr(flush, closeI):
+				problem = "is not flushed on every path before the output underneath is closed"
+			}
+			c.check(problem == "", key, c.pos(nw.Pos()), fname(fn), "buffered output is flushed before the output underneath is closed", fmt.Sprintf("%s: the bufio.Writer %s; with -o FILE the file comes out truncated or empty while the same command on stdout looks complete", fname(fn), problem))
+		}
 	}
 	// every data handler writes through getOutput / writeYamlOutput and reads through readFileOrStdinFromArgs
 	m := c.buildCobraModel()
@@ -1432,9 +1656,85 @@ func onlyHandedOn(v ssa.Value) bool {
 	return true
 }
 
-
 // reviewedMapWrites: functions that write a map under derived keys while ranging over a map, and why the result is order independent.
 var reviewedMapWrites = map[string]string{
 	"util.MustInverseMap": "panics when two entries have the same value, so a table it returns has exactly one writer per key (the tables it is applied to are checked injective by the TAB rules)",
 	"util.InverseMap":     "returns an error when two entries have the same value",
+}
+
+// comparatorTotal: a comparator func(a, b T) int distinguishes any two different T when what it compares of a is the
+// whole of a: a itself (a basic type), the printed form of a (T's own String method; the printers are checked injective by
+// CODEC / TAB rules), or every field of the struct T. Returns "" or what is missing.
+func (c *Ctx) comparatorTotal(cmpf *ssa.Function) string {
+	a := cmpf.Params[0]
+	t := a.Type()
+	whole := false
+	fields := map[string]bool{}
+	var visit func(v ssa.Value, depth int)
+	seen := map[ssa.Instruction]bool{}
+	visit = func(v ssa.Value, depth int) {
+		if v.Referrers() == nil || depth > 6 {
+			return
+		}
+		for _, r := range *v.Referrers() {
+			if seen[r] {
+				continue
+			}
+			seen[r] = true
+			switch x := r.(type) {
+			case *ssa.Field:
+				if depth == 0 {
+					n, _, _ := fieldName(x)
+					fields[n] = true
+				}
+			case *ssa.FieldAddr:
+				if depth <= 1 {
+					n, _, _ := fieldName(x)
+					fields[n] = true
+				}
+			case *ssa.Store:
+				// the parameter spilled into a local: follow the local
+				if x.Val == v {
+					visit(x.Addr, depth)
+				}
+			case *ssa.UnOp:
+				if x.Op == token.MUL {
+					visit(x, depth)
+				}
+			case *ssa.Call:
+				callee := staticCallee(&x.Call)
+				if callee != nil && callee.Name() == "String" && callee.Signature.Recv() != nil && len(x.Call.Args) > 0 && x.Call.Args[0] == v && types.Identical(callee.Signature.Recv().Type(), t) {
+					whole = true
+				}
+			case *ssa.BinOp, *ssa.Convert, *ssa.ChangeType, *ssa.MakeInterface:
+				if depth == 0 {
+					if _, isBasic := t.Underlying().(*types.Basic); isBasic {
+						whole = true
+					}
+				}
+			}
+		}
+	}
+	visit(a, 0)
+	if _, isBasic := t.Underlying().(*types.Basic); isBasic {
+		// compared directly or handed to a library comparison
+		return ""
+	}
+	if whole {
+		return ""
+	}
+	st, ok := t.Underlying().(*types.Struct)
+	if !ok {
+		return "compares " + typeName(t) + " values in a way that is not recognised as looking at the whole value"
+	}
+	var missing []string
+	for i := 0; i < st.NumFields(); i++ {
+		if !fields[st.Field(i).Name()] {
+			missing = append(missing, st.Field(i).Name())
+		}
+	}
+	if len(missing) > 0 {
+		return fmt.Sprintf("never looks at the field(s) %v of %s: two values that differ only there compare equal", missing, typeName(t))
+	}
+	return ""
 }
